@@ -48,8 +48,9 @@ MIN_COUNTERS = {'dbscan_catalogues': 40, 'dbscan_runs': 400, 'dbscan_links_check
                 'aereg_runs_with_psfheader': 4, 'aereg_runs_with_noregroup': 3, 'aereg_runs_with_debug': 3,
                 'threshold_pairs_judged_aereg_rescaled': 100, 'aereg_noregroup_rows_checked': 50,
                 'whole_sphere_runs': 60, 'whole_sphere_runs_default_eps': 10, 'whole_sphere_runs_explicit_eps': 40,
-                'elliptical_catalogues_straddling_ra0': 8, 'elliptical_catalogues_around_pole': 3,
-                'aereg_rows_dropped': 100, 'aereg_dropped_group_members': 80, 'aereg_dropped_bridges': 30,
+                'elliptical_catalogues_straddling_ra0': 8, 'norm_dist_contract': 1000, 'norm_dist_contract_polar_cap': 300, 'elliptical_catalogues_around_pole': 3,
+                'aereg_rows_dropped': 100, 'aereg_runs_uuids_shared': 3, 'aereg_runs_uuids_missing': 2,
+                'aereg_runs_uuids_empty': 2, 'aereg_runs_uuids_all_same': 2, 'aereg_dropped_group_members': 80, 'aereg_dropped_bridges': 30,
                 'aereg_dropped_brightest_of_group': 20}
 BATCHES_PER_JOB = 4
 
@@ -509,6 +510,45 @@ def _ell_norm_dist(ra, dec, a, b, pa, i, j):
     return d / (np.hypot(r1, r2) / 3600.0)
 
 
+class _Ell:
+    def __init__(self, ra, dec, a, b, pa):
+        self.ra, self.dec, self.a, self.b, self.pa = float(ra), float(dec), float(a), float(b), float(pa)
+
+
+def _norm_dist_contract(o, cluster, ra, dec, a, b, pa, rng, ctx, npairs=150):
+    """cluster.norm_dist against the documented definition (separation over the quadrature sum of the two ellipse radii
+    along the joining line), evaluated with the independent separation / position angle; both calling forms"""
+    n = len(ra)
+    if n < 2:
+        return
+    I = rng.integers(0, n, npairs)
+    J = rng.integers(0, n, npairs)
+    keep = I != J
+    I, J = I[keep], J[keep]
+    ref = _ell_norm_dist(ra, dec, a, b, pa, I, J)
+    sep = sphere.sep(ra[I], dec[I], ra[J], dec[J])
+    judged = (sep >= 1e-5) & (np.abs(dec[I]) < 89.9999) & (np.abs(dec[J]) < 89.9999) & np.isfinite(ref)
+    rec = np.rec.fromrecords(list(zip(ra, dec, a, b, pa)), names=['ra', 'dec', 'a', 'b', 'pa'])
+    for q, (i, j) in enumerate(zip(I.tolist(), J.tolist())):
+        if not judged[q]:
+            continue
+        with warnings.catch_warnings():
+            warnings.simplefilter('ignore')
+            got = float(cluster.norm_dist(_Ell(ra[i], dec[i], a[i], b[i], pa[i]), _Ell(ra[j], dec[j], a[j], b[j], pa[j])))
+            gotv = float(np.atleast_1d(cluster.norm_dist(rec[i], rec[[j, j]]))[0])      # as regroup_vectorized calls it
+        o.count('norm_dist_contract')
+        if max(abs(dec[i]), abs(dec[j])) > 89.5:
+            o.count('norm_dist_contract_polar_cap')
+        for form, g in (('objects', got), ('record_vs_recarray', gotv)):
+            err = abs(g - ref[q]) / ref[q]
+            o.worst('norm_dist_rel_err', err)
+            if not err <= ELL_BAND:
+                o.violate('norm_dist_vs_definition', dict(ctx, form=form, p1=[ra[i], dec[i]], p2=[ra[j], dec[j]],
+                                                          shapes=[[a[i], b[i], pa[i]], [a[j], b[j], pa[j]]],
+                                                          norm_dist=g, reference=float(ref[q]), rel_err=float(err)))
+                return
+
+
 def _run_elliptical(o, case):
     from AegeanTools import cluster
     rng = rng_for(*case['seed'])
@@ -537,6 +577,9 @@ def _run_elliptical(o, case):
     ctx = {'entry': 'regroup', 'eps': eps, 'far': far, 'n': n, 'ra_span_deg': float(ra.max() - ra.min()),
            'field_centre': [r0, d0]}
     o.count('elliptical_catalogues')
+    _norm_dist_contract(o, cluster, ra, dec, a, b, pa, rng, ctx)
+    if o.violations:
+        return
     if ra.max() - ra.min() > 180:
         o.count('elliptical_catalogues_straddling_ra0')
         if abs(d0) > 89:
@@ -704,9 +747,9 @@ def _run_resize(o, case):
                 'a_before_after': [snap[0]['a'], repr(srcs[0].a)]}
 
 
-def _write_csv(path, srcs, drop_psf=False, delimiter=','):
+def _write_csv(path, srcs, drop_psf=False, delimiter=',', drop=()):
     """own writer (repr of doubles is exact); independent of AegeanTools.catalogs"""
-    names = [n for n in type(srcs[0]).names if not (drop_psf and n.startswith('psf_'))]
+    names = [n for n in type(srcs[0]).names if not (drop_psf and n.startswith('psf_')) and n not in drop]
     with open(path, 'w') as f:
         f.write(delimiter.join(names) + '\n')
         for s in srcs:
@@ -790,7 +833,15 @@ def _run_aereg(o, case):
     nopsf = case.get('nopsf', False)
     srcs = _sources(ra, dec, flux, rng, psf='nan' if nopsf else 'known')
     for k, s in enumerate(srcs):
-        s.ra_str, s.dec_str = '00:00:00.00', '+00:00:00.00'
+        # rows are identified by a private id carried in a string column the tool passes through (not by uuid)
+        s.ra_str, s.dec_str = 'row:%05d' % k, '+00:00:00.00'
+        um = case.get('uuids', 'unique')
+        if um == 'shared':
+            s.uuid = 'epochs-%04d' % (k // 3)           # concatenated catalogues of several epochs
+        elif um == 'all_same':
+            s.uuid = 'same-uuid'
+        elif um == 'empty':
+            s.uuid = ''
         if droppers:
             # survivors are comfortably larger than the catalogue psf (30" x 20"), so that they survive any ratio >= 0.3
             s.a, s.b = float(rng.uniform(120, 200)), float(rng.uniform(80, 110))
@@ -809,7 +860,11 @@ def _run_aereg(o, case):
     try:
         ext = case.get('ext', 'csv')
         inp = os.path.join(work, 'in_comp.' + ext)
-        names = _write_csv(inp, srcs, drop_psf=nopsf, delimiter=',' if ext == 'csv' else '\t')
+        um = case.get('uuids', 'unique')
+        names = _write_csv(inp, srcs, drop_psf=nopsf, delimiter=',' if ext == 'csv' else '\t',
+                           drop=('uuid',) if um == 'missing' else ())
+        if um != 'unique':
+            o.count('aereg_runs_uuids_' + um)
         out = os.path.join(work, 'out.csv')
         argv = ['--input', inp, '--table', out, '--eps', repr(case['eps_arcmin'])]
         ratio = case.get('ratio')
@@ -868,15 +923,19 @@ def _run_aereg(o, case):
             o.violate('no_output', dict(ctx, returncode=rc, files=sorted(os.listdir(work))), mech)
             return
         t = ascii.read(res)
-        uu = [str(u) for u in t['uuid']]
+        if um != 'unique':
+            ctx['uuids_of_input'] = um
+        uu = [str(u) for u in t['ra_str']]
         byid = {u: k for k, u in enumerate(uu)}
-        inputs = {s.uuid: k for k, s in enumerate(srcs)}
-        missing = [k for k in range(n) if must[k] and srcs[k].uuid not in byid]
+        inputs = {s.ra_str: k for k, s in enumerate(srcs)}
+        missing = [k for k in range(n) if must[k] and srcs[k].ra_str not in byid]
         if len(byid) != len(uu) or any(u not in inputs for u in uu) or missing:
-            o.violate('rows_lost_or_duplicated', dict(ctx, written=n, read=len(t), must_be_written_but_missing=missing[:5]), mech)
+            dup = sorted(set(u for u in uu if uu.count(u) > 1))
+            o.violate('rows_lost_or_duplicated', dict(ctx, rows_in_input=n, rows_in_output=len(t),
+                                                      must_be_written_but_missing=missing[:5], rows_written_twice=dup[:5]), mech)
             return
         # ---- from here on the WRITTEN table alone is judged
-        W = np.array([k for k in range(n) if srcs[k].uuid in byid], dtype=int)
+        W = np.array([k for k in range(n) if srcs[k].ra_str in byid], dtype=int)
         o.count('aereg_rows_written', len(W))
         o.count('aereg_rows_dropped', n - len(W))
         if droppers:
@@ -890,11 +949,11 @@ def _run_aereg(o, case):
         for k in W:
             s = srcs[k]
             r = Row()
-            q = byid[s.uuid]
+            q = byid[s.ra_str]
             r.island, r.source, r.peak_flux = int(t['island'][q]), int(t['source'][q]), float(t['peak_flux'][q])
             rows.append(r)
             for nm in names:
-                if nm in ('island', 'source'):
+                if nm in ('island', 'source') or (nm == 'uuid' and um in ('missing', 'empty')):
                     continue
                 v, w = getattr(s, nm), t[nm][q]
                 same = (str(w) == v) if isinstance(v, str) else (float(w) == float(v) or (v != v and not np.isfinite(float(w))))
@@ -1072,6 +1131,15 @@ def cases(seed, tier):
             c = {'kind': 'aereg', 'eps_arcmin': e, 'droppers': dr, 'seed': [0, 'aereg', 'drop', e, dr, sorted(opts.items())]}
             c.update(opts)
             out.append(c)
+    # input tables whose rows share a uuid (concatenated epochs), carry no uuid column, or empty uuids
+    for um in ('shared', 'all_same', 'missing', 'empty'):
+        out.append({'kind': 'aereg', 'eps_arcmin': 2.0, 'offsets': OFFSETS, 'uuids': um, 'seed': [0, 'aereg', 'uuid', um]})
+        out.append({'kind': 'aereg', 'eps_arcmin': 1.0, 'droppers': 'compact', 'ratio': 0.5, 'uuids': um,
+                    'seed': [0, 'aereg', 'uuid-drop', um]})
+    out.append({'kind': 'aereg', 'eps_arcmin': 4.0, 'offsets': OFFSETS, 'uuids': 'shared', 'noregroup': True,
+                'seed': [0, 'aereg', 'uuid', 'noregroup']})
+    out.append({'kind': 'aereg', 'eps_arcmin': 4.0, 'offsets': OFFSETS, 'uuids': 'shared', 'ratio': 2.0,
+                'seed': [0, 'aereg', 'uuid', 'ratio']})
     # ratio < 1 on the ordinary threshold catalogues (only what is written is judged)
     for e in (0.5, 4.0, 30.0):
         out.append({'kind': 'aereg', 'eps_arcmin': e, 'offsets': OFFSETS, 'ratio': 0.8, 'seed': [0, 'aereg', 'ratio<1', e]})
@@ -1103,6 +1171,15 @@ def cases(seed, tier):
         for n in (6, 40):
             out.append({'kind': 'elliptical', 'n': n, 'eps': 3.0, 'far': 0.5, 'scatter': 0.03, 'field': 0.5,
                         'ra0': ra0, 'dec0': dec0, 'seed': [0, 'ell-wrap', k, n]})
+    # polar caps (within 0.5 deg of each pole), scatter comparable with the linking scale so that many pairs sit
+    # near norm_dist = eps
+    for k, dec0 in enumerate((89.75, -89.75, 89.9, -89.9, 89.6, -89.6)):
+        for n, sc in ((30, 0.08), (60, 0.05), (12, 0.12)):
+            out.append({'kind': 'elliptical', 'n': n, 'eps': 3.0, 'far': 0.5, 'scatter': sc, 'field': 0.1,
+                        'ra0': 40.0 * k, 'dec0': dec0, 'seed': [0, 'ell-cap', k, n]})
+    for k, dec0 in enumerate((-66.0, 66.0, 0.0, -85.0)):
+        out.append({'kind': 'elliptical', 'n': 40, 'eps': 3.0, 'far': 0.5, 'scatter': 0.08, 'field': 0.3,
+                    'dec0': dec0, 'seed': [0, 'ell-mid', k]})
     for psf in ('known', 'nan'):
         for n in (1, 5, 40):
             out.append({'kind': 'resize', 'n': n, 'psf': psf, 'ratio': 1, 'seed': [0, 'resize', psf, n]})
@@ -1160,7 +1237,8 @@ def cases(seed, tier):
         out.append({'kind': 'aereg', 'eps_arcmin': float(10 ** rng.uniform(-0.5, 0.8)), 'droppers': dr,
                     'ratio': None if dr in ('zero', 'negative', 'zero_b') else float(rng.choice([0.4, 0.6, 0.9, 1.5, 4.0])
                                                                                      if dr == 'nan' else rng.uniform(0.35, 0.8)),
-                    'psfheader': dr in ('zero', 'negative', 'zero_b'), 'seed': [seed, 'aereg-drop', k]})
+                    'psfheader': dr in ('zero', 'negative', 'zero_b'), 'uuids': ['unique', 'shared', 'missing'][k % 3],
+                    'seed': [seed, 'aereg-drop', k]})
         out.append({'kind': 'priorized', 'eps_arcmin': e, 'offsets': offs, 'seed': [seed, 'prio-r', k]})
     return out
 
